@@ -1,7 +1,7 @@
 (* Proofs about alternative-splicing backbones (Model/SpecAS.v). *)
 From Coq Require Import ZArith List Bool Lia ZifyBool.
 From MoPep Require Import Model.Base Model.Rule Model.Digest Model.Spec Model.SpecStmt Model.SpecFusion Model.SpecAS
-                          Gen.Bio Proofs.SpecProofs Proofs.SpecFusionProofs.
+                          Gen.Bio Proofs.SpecProofs Proofs.SpecFusionProofs Model.SpecCirc Proofs.SpecCircProofs.
 Import ListNotations.
 Open Scope Z_scope.
 
@@ -122,4 +122,61 @@ Proof.
   - destruct (conv (Rmats.r_S r)) as [p|]; [|discriminate].
     destruct (conv (Rmats.r_E r - 1)) as [q|]; [|discriminate].
     destruct (p <=? q); [|discriminate]. injection H as <-. reflexivity.
+Qed.
+
+
+(* ------------------------------------------------------------------ the reduction lemma *)
+(* Write the transcript as A ++ Mid ++ B (Mid = the interval the AS record replaces), D = the donor segment.
+   h1 = small records inside A, hd = records inside the donor (donor coordinates), hB = records inside B
+   (B coordinates).  The haplotype sequence of the DERIVED linear input (backbone A ++ D ++ B, donor records
+   moved by |A|, right-hand records moved by |A| + |D|) is the haplotype sequence of the ORIGINAL transcript
+   carrying h1, the AS record as ONE substitution  [|A|, |A|+|Mid|) := (D carrying hd), and the right-hand
+   records at their original positions: the AS backbone with shifted records is a linear input. *)
+Lemma as_reduction_lemma : forall (A Mid B D : seq) h1 hd hB M,
+  chain 0 h1 (zlen A) -> chain 0 hd (zlen D) -> chain 0 hB M ->
+  apply_hap (A ++ D ++ B) (h1 ++ map (move (zlen A)) (hd ++ map (move (zlen D)) hB)) =
+  apply_hap (A ++ Mid ++ B)
+            (h1 ++ map (move (zlen A)) (mkVar 0 (zlen Mid) (apply_hap D hd) true :: map (move (zlen Mid)) hB)).
+Proof.
+  intros A Mid B D h1 hd hB M H1 Hd HB.
+  assert (CD : chain 0 (hd ++ map (move (zlen D)) hB) (M + zlen D)).
+  { eapply chain_app; [exact Hd|]. exact (chain_move hB 0 M (zlen D) HB). }
+  rewrite (apply_hap_app h1 _ A (D ++ B) _ H1 CD).
+  rewrite (apply_hap_app hd hB D B _ Hd HB).
+  pose proof (zlen_len Mid) as HM.
+  assert (CM : chain 0 (mkVar 0 (zlen Mid) (apply_hap D hd) true :: map (move (zlen Mid)) hB) (M + zlen Mid)).
+  { cbn [chain v_s v_e]. repeat split; try lia. exact (chain_move hB 0 M (zlen Mid) HB). }
+  rewrite (apply_hap_app h1 _ A (Mid ++ B) _ H1 CM).
+  f_equal. unfold apply_hap at 3. cbn [build v_s v_e v_alt].
+  replace (zlen Mid) with (zlen Mid + 0) at 1 by lia.
+  rewrite (build_right hB Mid B 0 M) by (auto; lia).
+  unfold slice. cbn. reflexivity.
+Qed.
+
+Lemma skipn_skipn_add : forall {A} (l : list A) n m, skipn n (skipn m l) = skipn (m + n) l.
+Proof.
+  intros A l n m. revert l. induction m as [|m IH]; intros l; cbn [skipn Nat.add]; [reflexivity|].
+  destruct l as [|a l]; [destruct n; reflexivity|]. apply IH.
+Qed.
+
+(* the decomposition used above exists for every applicable record: transcript = A ++ Mid ++ B with |A| = a_s,
+   |A| + |Mid| = a_e, and the backbone of as_apply is A ++ donor ++ B *)
+Lemma as_decompose_lemma : forall x r, as_ok x r = true ->
+  let A := firstn (Z.to_nat (a_s r)) (in_tx x) in
+  let Mid := slice (in_tx x) (a_s r) (a_e r) in
+  let B := skipn (Z.to_nat (a_e r)) (in_tx x) in
+  in_tx x = A ++ Mid ++ B /\ zlen A = a_s r /\ zlen A + zlen Mid = a_e r /\
+  in_tx (as_apply x r) = A ++ a_donor r ++ B.
+Proof.
+  intros x r H A Mid B. unfold as_ok in H. rewrite !andb_true_iff in H.
+  destruct H as [[[H0 H1] H2] _]. pose proof (zlen_len (in_tx x)) as HL.
+  assert (EA : zlen A = a_s r).
+  { unfold A. rewrite zlen_len, firstn_length. lia. }
+  assert (EM : zlen Mid = a_e r - a_s r).
+  { unfold Mid, slice. rewrite zlen_len, firstn_length, skipn_length. lia. }
+  repeat split; auto; try lia.
+  unfold A, Mid, B, slice.
+  rewrite <- (firstn_skipn (Z.to_nat (a_s r)) (in_tx x)) at 1. f_equal.
+  rewrite <- (firstn_skipn (Z.to_nat (a_e r - a_s r)) (skipn (Z.to_nat (a_s r)) (in_tx x))) at 1. f_equal.
+  rewrite skipn_skipn_add. f_equal. lia.
 Qed.
